@@ -403,6 +403,44 @@ pub fn exec(api: &dyn GlobalApi, s: &Sequence, st: &CaseStats) -> Result<Vec<Str
     Ok(t)
 }
 
+/// Bounds sizes in a sequence decoded from arbitrary bytes (fuzzing): nothing huge is allocated.
+pub fn sanitize(s: &mut Sequence) {
+    s.ops.truncate(40);
+    let clamp = |d: &mut DataSpec| {
+        d.len = d.len.min(150_000);
+        if let Some(e) = &mut d.explicit {
+            e.truncate(150_000);
+        }
+    };
+    for op in s.ops.iter_mut() {
+        match op {
+            Op::GenUpdate(d) | Op::HashBuf(d) => clamp(d),
+            Op::HashStream(_, d) => {
+                clamp(d);
+                d.len = d.len.min(1_100_000);
+            }
+            Op::ParseText(t, _) => {
+                t.base.resize(69, 0);
+                t.muts.truncate(8);
+                if let Some(r) = &mut t.raw {
+                    r.truncate(400);
+                }
+            }
+            Op::ParseSlice(x) | Op::ParseArray(x) => x.truncate(200),
+            Op::CompareWith(l, r) => {
+                let cut = |x: &mut String| {
+                    if x.len() > 400 {
+                        *x = x.chars().take(100).collect();
+                    }
+                };
+                cut(l);
+                cut(r);
+            }
+            _ => {}
+        }
+    }
+}
+
 fn short(op: &Op) -> String {
     let s = format!("{:?}", op);
     if s.chars().count() > 160 {
